@@ -956,9 +956,11 @@ def main():
         "the line grammar (line_ok) excludes lines whose first field is blank or starts with a bracket and lines closing more brackets than they opened; on those the loader raises IndexError or shows the leading-comma quirk — described exactly by C10_parse_line_spec / C10_line_raises_iff, not claimed to follow the sentence",
         "known finding C10/string_adapter_empty_policy: StringAdapter saves an empty policy as '' and refuses to load it",
     ]
-    chk.trusted = ["hand-written model coq/theories/Csv.v of adapter.py / file_adapter.py / asyncio/file_adapter.py / "
+    chk.trusted = ["translator translators/loadline.py (load_policy_line -> coq/gen/LoadLineGen.v, syntactic, fail-closed, regenerated on this run) "
+                   "+ interpreter coq/theories/LineLang.v; LineTie.v proves the regenerated function = Csv.load_policy_line for every line and model",
+                   "hand-written model coq/theories/Csv.v of adapter.py / file_adapter.py / asyncio/file_adapter.py / "
                    "string_adapter.py (tied by the differential strata W L F R T of this run)"]
-    chk.build()
+    chk.build(translators=["loadline"])
     if chk.replay_file:
         return replay(chk)
     if chk.tier == "thorough":
